@@ -38,6 +38,7 @@ ASSUMPTIONS = [
 DEDUPE = False
 FRESH_WORKER_PER_BLOCK = True
 _REF = {}
+_PERSIST = {}  # inputs a caller keeps alive across analyses (per process)
 
 
 # ----------------------------------------------------------------------
@@ -53,6 +54,8 @@ FRAMES = {
     "E": [],
     "C": [([5.2, 20.9], 2.9, 0.8), ([15.0, 7.5], 3.6, 1.0), ([24.1, 20.2], 2.7, 0.9)],
     "D": [([13.0, 14.4], 4.4, 1.1)],
+    "X": [([29.6, 10.2], 3.4, 0.9), ([14.8, 0.4], 3.1, 1.0), ([14.2, 14.1], 2.6, 0.8)],
+    "Y": [([0.3, 27.7], 3.6, 1.0), ([15.5, 13.0], 3.0, 0.9)],
 }
 
 
@@ -69,6 +72,8 @@ def scenarios(tier):
                          "shift": 0.3, "contrast": [1.0, 0.6, 1.5, 0.8, 1.2]}
     out["locate-empty"] = {"api": "locate", "drops": [], "kwargs": {"refine": True}}
     out["locate-one"] = {"api": "locate", "drops": DROPS5[2:3], "kwargs": {"refine": True, "modes": 1}}
+    # the caller keeps ONE emulsion of candidates for the life of the process and hands a slice of it to every analysis
+    out["refine-slice"] = {"api": "refine", "drops": DROPS5[:3], "kwargs": {}, "shift": 0.35, "persistent_slice": True}
     out["locate-std"] = {"api": "locate", "drops": DROPS5[:n], "kwargs": {"refine": True}}
     out["locate-modes"] = {"api": "locate", "drops": DROPS5[:n], "kwargs": {"refine": True, "modes": 2, "minimal_radius": 1.0, "refine_args": {"tolerance": 1e-6}}}
     seq = ["A", "B", "E", "C", "D"][:n] if n == 5 else ["A", "B", "E", "C"]
@@ -77,14 +82,17 @@ def scenarios(tier):
     out["storage-plain"] = {"api": "storage", "frames": seq, "times": t_inc, "kwargs": {"refine": False}}
     out["storage-dup-refine"] = {"api": "storage", "frames": ["C", "A", "B", "D", "E"][:n], "times": t_dup, "kwargs": {"refine": True}}
     out["storage-dup"] = {"api": "storage", "frames": ["B", "A", "C", "E", "D"][:n], "times": t_dup, "kwargs": {"refine": False, "minimal_radius": 1.0}}
+    # same box, other periodicity, droplets reaching across both boundaries (state keyed on the grid must include the periodicity)
+    out["storage-pp"] = {"api": "storage", "frames": ["X", "A", "Y", "X", "B"][:n], "times": t_inc, "kwargs": {"refine": False}, "periodic": [True, True]}
+    out["storage-pn"] = {"api": "storage", "frames": ["X", "A", "Y", "X", "B"][:n], "times": t_inc, "kwargs": {"refine": False}, "periodic": [True, False]}
     out["tracks-dup"] = {"api": "tracks", "frames": ["A", "C", "B", "D", "E"][:n], "times": t_dup, "kwargs": {"refine": False, "method": "distance"}}
     return out
 
 
-def _field(drops, affine=None, contrast=None):
+def _field(drops, affine=None, contrast=None, periodic=None):
     from droplets import DiffuseDroplet, Emulsion
 
-    grid = geom.make_grid(GRID2)
+    grid = geom.make_grid(GRID2 if periodic is None else dict(GRID2, periodic=list(periodic)))
     f = Emulsion([DiffuseDroplet(np.array(c, float), R, w) for c, R, w in drops]).get_phasefield(grid) if drops else None
     if contrast and drops:  # every droplet with its own intensity (so automatically determined levels differ per droplet)
         f = sum(DiffuseDroplet(np.array(c, float), R, w).get_phase_field(grid) * a for (c, R, w), a in zip(drops, contrast))
@@ -118,9 +126,9 @@ def build(sc):
     from pde import MemoryStorage
 
     st = MemoryStorage()
-    st.start_writing(_field([]))
+    st.start_writing(_field([], periodic=sc.get("periodic")))
     for name, t in zip(sc["frames"], sc["times"]):
-        st.append(_field(FRAMES[name]), t)
+        st.append(_field(FRAMES[name], periodic=sc.get("periodic")), t)
     return (st,)
 
 
@@ -129,6 +137,16 @@ def call(sc, k):
     import droplets
     from droplets import image_analysis as ia
 
+    if sc.get("persistent_slice"):
+        from droplets import Emulsion
+
+        key = json.dumps(sc, sort_keys=True)
+        if key not in _PERSIST:
+            f, c = build(sc)
+            _PERSIST[key] = (f, Emulsion(c))
+        field, em = _PERSIST[key]
+        res = ia.refine_droplets(field, em[:], num_processes=k, **sc["kwargs"])
+        return {"droplets": [canon_d(d) for d in res]}
     inp = build(sc)
     if sc["api"] == "refine":
         res = ia.refine_droplets(inp[0], inp[1], num_processes=k, **sc["kwargs"])
